@@ -87,6 +87,10 @@ OPAQUE = _Opaque()
 def project(obj):
     """Abstract state of one bitstring object: class, bits, pos, len()."""
     cls = type(obj).__name__
+    if cls == 'Array':
+        b = obj.data.bin
+        return {'c': 'Array', 'v': bits_of_str(b), 'p': -1, 'n': len(obj.data), 'dn': obj.dtype.name,
+                'dl': -1 if obj.dtype.length is None else int(obj.dtype.length)}
     b = obj.bin
     pos = getattr(obj, '_pos', None) if cls in ('ConstBitStream', 'BitStream') else None
     if cls in ('ConstBitStream', 'BitStream'):
@@ -96,6 +100,8 @@ def project(obj):
 
 def enc_obj(obj):
     p = project(obj)
+    if p['c'] == 'Array':
+        return [15, 0, -1, p['n']] + p['v']
     return [8, CLS_CODE.get(p['c'], 0), p['p'], p['n']] + p['v']
 
 
@@ -111,7 +117,7 @@ def enc_value(x, hint=None):
         return [13]
     if isinstance(x, bool):
         return [1, int(x)]
-    if isinstance(x, bitstring.Bits):
+    if isinstance(x, (bitstring.Bits, bitstring.Array)):
         return enc_obj(x)
     if isinstance(x, int):
         return enc_small(x) if hint == 'small' else enc_int(x)
